@@ -111,6 +111,8 @@ def fam_chain(w: World) -> None:
                 if r['kind'] in ('mw.enter', 'mw.exit', 'mw.step', 'eh.call', 'eh.step', 'method.enter', 'method.step')]
         if w.violations:
             return
+        if cfg['async'] and ch.flag(1, 3, 'new_event_loop'):
+            sut.new_event_loop()
     w.sig_parts = sig
 
 
